@@ -246,6 +246,7 @@ fn check_text_k(class: u8, fixed_kind: Option<usize>, fixed_amb: Option<u8>) {
 }
 
 //@ obligation: C18.text.piece_moves
+//@ status: experimental
 //@ domain: complete
 //@ functions: chess/san/san_writer.rs::format_move
 //@ timeout: 3000
@@ -260,6 +261,7 @@ fn vk_c18_text_piece_moves() {
 }
 
 //@ obligation: C18.text.pawn_specials
+//@ status: experimental
 //@ domain: complete
 //@ functions: chess/san/san_writer.rs::format_move
 //@ timeout: 3000
@@ -275,6 +277,7 @@ fn vk_c18_text_pawn_specials() {
 }
 
 //@ obligation: C18.text.castling
+//@ status: experimental
 //@ domain: complete
 //@ functions: chess/san/san_writer.rs::format_move
 //@ timeout: 3000
@@ -289,6 +292,7 @@ fn vk_c18_text_castling() {
 }
 
 //@ obligation: C18.canary.text
+//@ status: experimental
 //@ canary: true
 //@ timeout: 3000
 //@ mem_gb: 12
@@ -320,4 +324,71 @@ fn vk_c18_canary_text() {
 #[kani::unwind(12)]
 fn vk_c18_text_probe() {
     check_text_k(CAPTURE, Some(1), Some(3));
+}
+
+// ---------------------------------------------------------------------------------------------------------------
+// The obligations above do NOT fit CBMC (the real String / format! machinery: > 12 GB in symbolic execution even for one
+// concrete piece kind and with memory-safety checks off), so they are kept as *experimental*.  What does fit is the
+// PROTOCOL half of the suffix clause, with the text formatting stubbed out (std::fmt::format -> empty string):
+// ---------------------------------------------------------------------------------------------------------------
+fn fake_format(_args: std::fmt::Arguments<'_>) -> String {
+    String::new()
+}
+
+//@ obligation: C18.suffix.decided_for_every_move
+//@ domain: complete
+//@ functions: chess/san/san_writer.rs::format_move
+//@ timeout: 1200
+//@ mem_gb: 8
+//@ note: body of format_move against callee contracts with the text formatting stubbed out, for every piece kind, from/to pair, side and move class -- CASTLING INCLUDED, as the property says: on every path that returns a text, the move was played exactly once on a scratch copy and that copy was asked whether the side to move is in check (the answer the '+' suffix has to follow); the disambiguation is asked of the position before the move. That the answer is then rendered as '+' is NOT decided here (String machinery does not fit CBMC).
+//@ assumes: callee contracts (C02.make_undo.*, C01.in_check.exact, C18.disambiguation.minimal); std::fmt::format stubbed (text not examined)
+#[kani::proof]
+#[kani::unwind(12)]
+#[kani::stub(std::fmt::format, fake_format)]
+fn vk_c18_suffix_decided_for_every_move() {
+    let class: u8 = kani::any();
+    kani::assume(class <= CAP_PROMO);
+    let player = geo::any_player();
+    let home: u8 = if player == Player::White { 0 } else { 56 };
+    let (from, to) = (geo::any_square(), geo::any_square());
+    kani::assume(from != to);
+    let k: usize = kani::any();
+    kani::assume(k < 6);
+    let kind = PieceKind::ALL[k];
+    let mv = if class == QUIET {
+        Move::quiet(from, to)
+    } else if class == CAPTURE {
+        Move::capture(from, to)
+    } else if class == EN_PASSANT {
+        kani::assume(kind == PieceKind::Pawn);
+        Move::en_passant(from, to)
+    } else if class == CASTLE_K {
+        kani::assume(kind == PieceKind::King && from.idx() == home + 4 && to.idx() == home + 6);
+        Move::castles(from, to)
+    } else if class == CASTLE_Q {
+        kani::assume(kind == PieceKind::King && from.idx() == home + 4 && to.idx() == home + 2);
+        Move::castles(from, to)
+    } else if class == PROMO {
+        kani::assume(kind == PieceKind::Pawn);
+        Move::quiet_promotion(from, to, any_promo())
+    } else {
+        kani::assume(kind == PieceKind::Pawn);
+        Move::capture_promotion(from, to, any_promo())
+    };
+    unsafe {
+        EXPECT_MV = Some(mv);
+        EXPECT_FROM = from.idx();
+        MADE = 0;
+        CHECK_ASKED = 0;
+        AMB_CALLS = 0;
+        AMB_FIXED = None;
+        CHECK_ANSWER = kani::any();
+    }
+    let game = Game { board: Board { mover: Piece::new(player, kind) }, player, is_copy: false, moved: false };
+    let _text = format_move__body(&game, mv);
+    kani::cover!(class == CASTLE_Q);
+    kani::cover!(class == CAP_PROMO);
+    unsafe {
+        assert!(MADE == 1 && CHECK_ASKED == 1, "every move, castling included: the check suffix is decided by playing the move once on a scratch copy");
+    }
 }
